@@ -40,4 +40,12 @@ CHECKS["C03"] = {
          "data-path invariants are checked on the resumed run; pruning and non-pruning upstreams.",
  "note": DP_NOTE + " No real SIGKILL/Badger: logical crash points only.",
  "technique": "TLC trace validation at every prefix + restart replay on store snapshots"}
+CHECKS["C06"] = {
+ "text": "Healthy pipelines of both real engines are stopped gracefully (StopAndWait, and Stop + WaitPipeline) at every "
+         "step index of small base scripts and at random instants of seeded random scenarios, with eager and lazy "
+         "persisters; TLC validates every trace: AckedBeforeTeardown at each source teardown, NoHalfHandled / "
+         "StoredIsLastAcked / TornDownOnce when stop-and-wait returns nil and at the end, AckPrefix, NoHang (bounded "
+         "liveness). Design level: SourcePersist.tla (teardown sequence, drain) model-checked incl. liveness.",
+ "note": DP_NOTE + " Bounded liveness: 40 s with every gate open.",
+ "technique": "TLA+ model checking (TLC) of the drain mechanism + TLC trace validation of real-engine traces"}
 NOT_APPLICABLE = {}
